@@ -212,7 +212,22 @@ class C20(Property):
     id = "C20"
     title = "Dict.slice / update_object / set_by_object move exactly the selected fields"
     proof_module = "Proofs.C20"
-    theorems = []
+    theorems = [
+        "Flatland.C20.Proofs.slice_spec",
+        "Flatland.C20.Proofs.slice_keys",
+        "Flatland.C20.Proofs.slice_spec_injective",
+        "Flatland.C20.Proofs.include_omit_exclusive",
+        "Flatland.C20.Proofs.update_object_frame",
+        "Flatland.C20.Proofs.update_object_untouched",
+        "Flatland.C20.Proofs.set_by_object_reads_partial",
+        "Flatland.C20.Proofs.C20_full_fails",
+        "Flatland.C20.Proofs.object_roundtrip",
+    ]
+    level_text = "proof"
+    level_note = ("all clauses proved for every value type, field list, include/omit/rename and key function; "
+                  "'reads exactly' is proved under PlainRename (no duplicate rename sources, no non-field rename target that is "
+                  "itself a source) and its full form is refuted by a witness (KF-C20-a); member.set() is a parameter (C04)")
+    technique = "Lean 4 theorems about a hand-written model + differential correspondence with /repo + Python oracle of spec B"
     trusted_base = [
         "Python objects modelled as attribute stores (plain attributes and properties whose getter returns or raises AttributeError); "
         "getters raising other exceptions, __slots__, read-only properties are not modelled",
@@ -234,7 +249,7 @@ class C20(Property):
             "non-trivial = no exception and at least one of include/omit/rename/key supplied and a non-empty selection")
     exhaustive_note = ("fields {a:str, b:int}; include, omit in {None, [], [a], [b], [a,b], [zz]}; rename in {None, a->b, a->z, z->a, "
                        "swap a<->b, chain z->a,y->z}; op in slice/update/setby; key in {None, upper} for slice/update")
-    quick_n = 6000
+    quick_n = 60000
     thorough_n = 200000
 
     # ------------------------------------------------------------ cases
@@ -447,9 +462,9 @@ class C20(Property):
         if op == "slice":
             try:
                 got = el.slice(**_kwargs(case, True))
-            except TypeError:
-                got = "TypeError"
-            if exp == "TypeError" or got == "TypeError":
+            except Exception as e:  # noqa: BLE001
+                got = type(e).__name__
+            if exp == "TypeError" or isinstance(got, str):
                 if got != exp:
                     fails.append({"clause": "include-omit-exclusive", "expected": _j(exp), "observed": _j(got)})
             elif got != exp or any(type(got[k]) is not type(exp[k]) for k in exp):
@@ -462,8 +477,8 @@ class C20(Property):
             try:
                 el.update_object(box.obj, **_kwargs(case, True))
                 raised = None
-            except TypeError:
-                raised = "TypeError"
+            except Exception as e:  # noqa: BLE001
+                raised = type(e).__name__
             after = box.snapshot()
             if exp == "TypeError" or raised:
                 if raised != (exp if exp == "TypeError" else None):
@@ -491,9 +506,9 @@ class C20(Property):
             el2 = build_schema(case)()
             try:
                 el2.set_by_object(box.obj, **_kwargs(case, False, a2))
-            except TypeError:
-                if hyp and case.get("policy", "subset") != "strict":
-                    fails.append({"clause": "roundtrip", "expected": "no exception", "observed": "TypeError"})
+            except Exception as e:  # noqa: BLE001
+                if not (type(e) is TypeError and case.get("policy", "subset") == "strict") and (hyp or type(e) is not TypeError):
+                    fails.append({"clause": "roundtrip", "expected": "no exception", "observed": type(e).__name__})
                 return fails
             if hyp:
                 for f in fields:
@@ -512,8 +527,8 @@ class C20(Property):
         try:
             el.set_by_object(box.obj, **_kwargs(case, False))
             raised = None
-        except TypeError:
-            raised = "TypeError"
+        except Exception as e:  # noqa: BLE001
+            raised = type(e).__name__
         reads = set(box.log)
         if box.snapshot() != before:
             fails.append({"clause": "setby-object-untouched", "expected": _j(before), "observed": _j(box.snapshot())})
